@@ -9,7 +9,7 @@ LEVEL = 'exploration'
 RULE = ('seeded plans: per side 0-5 bundles with boundary-biased lengths, segment MRU / initial size / CHUNK_SIZE / '
         'socket capacity drawn per run, send calls before and after establishment, pops and queries at drawn times; the '
         'schedule chooser decides node interleaving, CPU cost, TCP chunking, latency, short writes. A run is non-trivial '
-        'when at least one bundle was delivered or segment written; distinct = distinct blake2b digests of the full event history.')
+        'when at least one bundle was delivered or segment written; a fifth of the runs negotiate a keepalive interval of 1-2 s and stall the link or one process for 1.2-4 s while transfers run (safety clauses only, the stalls heal); distinct = distinct blake2b digests of the full event history.')
 COMPONENTS = tc.COMPONENTS
 PROBES = ('tcp.chunked', 'tcp.short_write', 'tcp.eagain', 'bundles.delivered', 'probe.zero_length', 'probe.multi_segment',
           'probe.send_before_established', 'fault.stall', 'fault.slow', 'wire.KEEPALIVE')
